@@ -613,10 +613,32 @@ def _grid_eq(ctx, m):
     s, o = a
     text = norm(fn)
     where = '%s:%d' % (FG, fn.lineno)
-    lines = [norm(n) for n in ast.walk(fn) if isinstance(n, (ast.If, ast.For, ast.Return))]
-    tests = [norm(n.test) for n in ast.walk(fn) if isinstance(n, ast.If)]
-    fors = [(norm(n.target), norm(n.iter)) for n in ast.walk(fn) if isinstance(n, ast.For)]
-    calls = [norm(n) for n in ast.walk(fn) if isinstance(n, ast.Call) and norm(n.func).endswith('_approx_check')]
+    # loop variables by role (so that renaming them does not matter)
+    import re as _re
+    ren = {}
+
+    def R(text):
+        for k, v in ren.items():
+            text = _re.sub(r'(?<![\w.])%s(?![\w])' % _re.escape(k), v, text)
+        return text
+
+    loops = sorted([n for n in ast.walk(fn) if isinstance(n, ast.For)], key=lambda n: (n.lineno, n.col_offset))
+    for lp in loops:
+        it = R(norm(lp.iter))
+        if it in ('%s.metadata.keys()' % s, '%s.metadata' % s, 'list(%s.metadata.keys())' % s) and isinstance(lp.target, ast.Name):
+            ren[lp.target.id] = 'key'
+        elif it in ('%s.column.keys()' % s, '%s.column' % s, 'list(%s.column.keys())' % s) and isinstance(lp.target, ast.Name):
+            ren[lp.target.id] = 'col'
+        elif it in ('%s.column[col].keys()' % s, '%s.column[col]' % s) and isinstance(lp.target, ast.Name):
+            ren[lp.target.id] = 'key'
+        elif it == 'zip(%s, %s)' % (s, o) and isinstance(lp.target, ast.Tuple) and len(lp.target.elts) == 2 \
+                and all(isinstance(e, ast.Name) for e in lp.target.elts):
+            ren[lp.target.elts[0].id] = 'ref_row'
+            ren[lp.target.elts[1].id] = 'parsed_row'
+    lines = [R(norm(n)) for n in ast.walk(fn) if isinstance(n, (ast.If, ast.For, ast.Return))]
+    tests = [R(norm(n.test)) for n in ast.walk(fn) if isinstance(n, ast.If)]
+    fors = [(R(norm(n.target)), R(norm(n.iter))) for n in ast.walk(fn) if isinstance(n, ast.For)]
+    calls = [R(norm(n)) for n in ast.walk(fn) if isinstance(n, ast.Call) and norm(n.func).endswith('_approx_check')]
 
     def has_test(*alts):
         return any(t in tests or any(t in x for x in tests) for t in alts)
